@@ -393,7 +393,9 @@ def run_sub(sub: Sub, seed_base: int) -> tuple[Stats, list[Failure]]:
 def write_replay(prop: str, f: Failure) -> str:
     d = os.path.join(VERIF_DIR, "replays", prop)
     os.makedirs(d, exist_ok=True)
-    name = f"{f.sub}-{digest([f.sig, f.case]):016x}.json"
+    import re
+
+    name = f"{re.sub(r'[^A-Za-z0-9_.-]', '_', f.sub)}-{digest([f.sig, f.case]):016x}.json"
     path = os.path.join(d, name)
     with open(path, "w") as fh:
         json.dump(
